@@ -285,6 +285,13 @@ Definition finish_run (nil_account : bool) (pre : str) (r : mresult (list direct
   | MPanic _ => mkRun pre SPanic
   end.
 
-(* one transaction with a single booking, as all six importers build it *)
+(* transaction.Builder.Build (since fix faa0268): strings.ReplaceAll(Description, double quote, single quote) --
+   the journal syntax has no escape for a double quote inside a quoted description *)
+Definition build_desc (s : str) : str := map (fun c => if c =? 34 then 39 else c) s.
+
+(* one transaction with a single booking, as all six importers build it
+   (transaction.Builder{...}.Build()); [simple_txn_pinned] is Build before faa0268 *)
 Definition simple_txn (date : Z) (desc : str) (credit debit : account) (com : commodity) (q : dec) : directive :=
+  DTxn (mkTxn date (build_desc desc) (pair_build credit debit com q dec_nil) None).
+Definition simple_txn_pinned (date : Z) (desc : str) (credit debit : account) (com : commodity) (q : dec) : directive :=
   DTxn (mkTxn date desc (pair_build credit debit com q dec_nil) None).
